@@ -64,7 +64,10 @@ PRED_SAMPLE = {'isint': ['i', 4], 'pos': ['i', 2], 'shortstr': ['s', 'q'], 'neve
 TYPE_SAMPLE = {'int': ['i', 3], 'str': ['s', 'st'], 'float': ['f', 2.5], 'bool': ['b', True], 'object': ['s', 'o'],
                'NoneType': ['none'], 'list': ['list', [['i', 1]]], 'dict': ['dict', [['z', ['i', 1]]]],
                'tuple': ['tuple', [['i', 1]]]}
-REGEXES = {'ab+': 'abb', '[0-9]+': '42', '(?P<w>x+)y': 'xxy'}
+# pattern -> conforming samples.  Ordered alternations whose earlier branch is a prefix of a later one and lazy
+# quantifiers need backtracking to span the whole target (a match at position 0 that stops early is not a full match)
+REGEXES = {'ab+': ['abb'], '[0-9]+': ['42'], '(?P<w>x+)y': ['xxy'], 'a|ab': ['a', 'ab'], '1|10': ['10', '1'],
+           '[0-9]+?': ['123', '7'], 'foo(?:bar)??': ['foobar', 'foo']}
 
 LITS = [['i', 0], ['i', 1], ['i', 2], ['s', 'a'], ['s', 'b'], ['s', ''], ['none'], ['f', 1.5], ['b', True],
         ['tuple', [['i', 1]]], ['s', 'c']]
@@ -182,7 +185,7 @@ def gen_from(draw, p):
     if tag == 'pred':
         return PRED_SAMPLE[p[1]]
     if tag == 'regex':
-        return ['s', REGEXES[p[1]]]
+        return ['s', draw(st.sampled_from(REGEXES[p[1]]))]
     if tag in ('list', 'set', 'fset'):
         ttag = tag
         if not p[1]:
